@@ -424,6 +424,23 @@ fn load_known(prop: &str) -> (Vec<Value>, Vec<String>) {
     (open, avoid.into_iter().collect())
 }
 
+/// Does this violation fall under a listed known finding?
+///
+/// An entry matches on the property and either the exact (kind, signature) pair or, when it
+/// lists `requires_features`, on a kind prefix plus all of those features being present in
+/// the '+'-separated signature of the violation.
+fn known_match(entry: &Value, v: &Violation) -> bool {
+    if entry["property"].as_str() != Some(v.property.as_str()) {
+        return false;
+    }
+    if let Some(required) = entry["requires_features"].as_array() {
+        let have: Vec<&str> = v.signature.split('+').collect();
+        let prefix = entry["kind_prefix"].as_str().unwrap_or("");
+        return v.kind.starts_with(prefix) && required.iter().filter_map(|f| f.as_str()).all(|f| have.contains(&f));
+    }
+    entry["kind"].as_str() == Some(v.kind.as_str()) && entry["signature"].as_str() == Some(v.signature.as_str())
+}
+
 fn tape_of(v: &Value) -> Vec<u32> {
     v.as_array()
         .map(|a| a.iter().filter_map(|x| x.as_u64().map(|x| x as u32)).collect())
@@ -504,27 +521,21 @@ pub fn check_main(worlds: &[World], args: CheckArgs) -> i32 {
 
     // ---- known findings: replay each, announce those that still fail
     let (known, avoid) = load_known(&args.prop);
-    let mut known_keys: BTreeSet<String> = BTreeSet::new();
     let mut known_lines = Vec::new();
     for item in known.iter() {
-        let key = format!(
-            "{}|{}|{}",
-            item["property"].as_str().unwrap_or(""),
-            item["kind"].as_str().unwrap_or(""),
-            item["signature"].as_str().unwrap_or("")
-        );
-        known_keys.insert(key);
         let what = item["what"].as_str().unwrap_or("");
         let replay = item["replay"].as_str().unwrap_or("");
+        let id = item["id"].as_str().unwrap_or("");
         let path = verif_root().join(replay);
         match replay_file(&path, worlds) {
-            Ok((true, _, _)) => {
-                let line = format!("KNOWN-FINDING: property={} {} [{}]", args.prop, what, item["signature"].as_str().unwrap_or(""));
+            Ok((reproduced, msg, violation)) if reproduced || violation.as_ref().map(|v| known_match(item, v)).unwrap_or(false) => {
+                let _ = msg;
+                let line = format!("KNOWN-FINDING: property={} {} [{}]", args.prop, what, id);
                 println!("{line}");
                 known_lines.push(line);
             }
-            Ok((false, msg, _)) => {
-                println!("[simctl] note: known finding no longer reproduces ({}): {}", item["signature"].as_str().unwrap_or(""), msg);
+            Ok((_, msg, _)) => {
+                println!("[simctl] note: known finding {} no longer reproduces: {}", id, msg);
             }
             Err(msg) => {
                 eprintln!("[simctl] harness error while replaying known finding {replay}: {msg}");
@@ -685,10 +696,14 @@ pub fn check_main(worlds: &[World], args: CheckArgs) -> i32 {
     }
     let mut new_violations = 0;
     let mut violation_lines = Vec::new();
-    for (key, rec) in by_key.iter() {
-        if known_keys.contains(key) {
-            // listed finding met again during exploration: already announced above
-            continue;
+    let mut known_met: BTreeMap<String, u64> = BTreeMap::new();
+    for (_key, rec) in by_key.iter() {
+        if let Some(v) = Violation::from_json(&rec["violation"]) {
+            if let Some(entry) = known.iter().find(|entry| known_match(entry, &v)) {
+                // listed finding met again during exploration: announced above, not a new violation
+                *known_met.entry(entry["id"].as_str().unwrap_or("?").to_string()).or_default() += 1;
+                continue;
+            }
         }
         let path = write_replay(rec);
         match replay_file(&path, worlds) {
@@ -752,6 +767,7 @@ pub fn check_main(worlds: &[World], args: CheckArgs) -> i32 {
                 "violating_runs": agg.violating_runs,
                 "violation_keys": agg.violation_keys,
                 "known_findings_reported": known_lines,
+                "known_findings_met_during_exploration": known_met,
                 "real_components": selected.iter().flat_map(|w| w.real.iter()).collect::<Vec<_>>(),
                 "stub_components": selected.iter().flat_map(|w| w.stub.iter()).collect::<Vec<_>>(),
                 "exhaustive": false,
